@@ -34,6 +34,8 @@ PoolC07 == {S(C(1,"ok")), S(C(1,"nf")), S(C(1,"rpc")), S(C(2,"ok")), B2(C(1,"ok"
 PoolC08 == {S(N("ok")), S(C(1,"ok")), S(InvNote), G, E, B2(C(1,"ok"), N("ok")), B2(N("ok"), C(1,"ok"))}
 PoolC09 == {S(C(1,"ok")), S(N("ok")), S(R(1)), S(R(2)), B2(R(1), C(1,"ok")), B2(R(1), R(1))}
 PoolC09r == {S(R(1)), S(R(2)), S(N("ok"))}
+\* replies held inside Send while the rest goes on (srv_send, srv_send2)
+PoolSend == {S(C(1,"ok")), S(C(2,"ok")), S(C(3,"ok")), S(N("ok")), B2(C(1,"ok"), C(2,"ok"))}
 PoolSmall == {S(N("ok")), S(C(1,"ok")), G}
 \* every message shape of every family at once: simulation only (srv_all), for the cross-feature behaviours
 \* no single-property configuration contains (cancellation x push x faults x restart)
